@@ -14,6 +14,7 @@ Construct classes (tag -> what the pinned tree does with it, see known_findings.
   gcounter    call of a global closure that mutates its captured variable         balanced
   enum        non-recursive variant constructed and matched                       balanced
   leafbox     one-cell boxed variant bound and dropped                            balanced
+  tupbox      one-cell boxed variant inside a let-bound tuple next to plain elements   balanced
   embed       let-bound value of a recursive variant type (payload elements of 1..3 words before / between / after the
               recursive references) embedded into other constructors in nested blocks, never matched or passed     balanced
   letcap      capturing closure bound by `let`                                    K1 leaks a closure per execution
@@ -26,7 +27,7 @@ import sys, os
 sys.path.insert(0, os.path.dirname(os.path.abspath(__file__)))
 from coregen import Rng
 
-BALANCED_TAGS = ["local0", "direct", "pipe", "gcall", "gcounter", "enum", "leafbox", "embed"]
+BALANCED_TAGS = ["local0", "direct", "pipe", "gcall", "gcounter", "enum", "leafbox", "tupbox", "embed"]
 LEAKY_TAGS = ["letcap", "fnarg", "fnret", "box", "sched"]
 CONSTS = ["0.5", "1.0", "2.0", "3.0", "0.25", "1.5", "4.0", "10.0"]
 
@@ -131,6 +132,13 @@ def make_unit(r, n, tags):
         return Unit(tag, ctor, [f"let {v} = etest({ctor}({arg}))"], v, needs=["etest"])
     if tag == "leafbox":
         return Unit(tag, "unused", [f"let l{n} = Cons({arg}, Nil)", f"let {v} = {up}"], v, needs=["List"])
+    if tag == "tupbox":
+        # a one-cell boxed value inside a TUPLE bound by `let` and dropped at scope exit: plain elements before, between
+        # and after the managed one (the release walks the tuple's elements)
+        shape = r.pick(["fb", "bf", "ffb", "fbf", "bff", "fbfb"])
+        elems = [(f"Cons({arg}, Nil)" if ch == "b" else r.pick([c1, c2, up])) for ch in shape]
+        first_f = shape.index("f")
+        return Unit(tag, shape, [f"let t{n} = ({', '.join(elems)})", f"let {v} = t{n}.{first_f} + {up}"], v, needs=["List"])
     if tag == "embed":
         return make_embed_unit(r, n, tag, up, arg, v)
     if tag == "box" and r.chance(2, 5):
